@@ -114,16 +114,11 @@ Qed.
 
 Lemma seti_seti : forall (I : itab) i x y, seti (seti I i x) i y = seti I i y.
 Proof.
-  intros I i x y. unfold seti, upd_nth. destruct (i <? length I) eqn:E; [|rewrite E; reflexivity].
-  apply Nat.ltb_lt in E.
-  assert (L : length (firstn i I ++ x :: skipn (S i) I) = length I).
-  { rewrite app_length, firstn_length. cbn [length]. rewrite skipn_length. lia. }
-  rewrite L. apply Nat.ltb_lt in E as E'. rewrite E'.
-  rewrite firstn_app, firstn_firstn, firstn_length, Nat.min_l, Nat.min_id by lia.
-  rewrite Nat.sub_diag. cbn [firstn]. rewrite app_nil_r. f_equal. f_equal.
-  assert (Hs : S i = length (firstn i I) + 1) by (rewrite firstn_length; lia).
-  rewrite Hs at 1. rewrite skipn_app. rewrite skipn_all2 by lia. cbn [app].
-  replace (length (firstn i I) + 1 - length (firstn i I)) with 1 by lia. reflexivity.
+  intros I i x y. unfold seti. apply (nth_ext _ _ None None).
+  - rewrite !upd_nth_length. reflexivity.
+  - intros n Hn. rewrite !upd_nth_length in Hn. destruct (Nat.eq_dec n i) as [->|Hni].
+    + rewrite !nth_upd_nth_same; rewrite ?upd_nth_length; auto.
+    + rewrite !nth_upd_nth_other by congruence. reflexivity.
 Qed.
 
 Lemma register_del : forall w i t c bw nr scr,
@@ -222,4 +217,44 @@ Proof.
   pose proof (ti_dom _ _ T c Lc) as Hc.
   destruct (subseq_in_list h l c bw c' (ti_linked _ _ T) Hc Hs) as [Hin _].
   apply (lk_live _ _ (ti_linked _ _ T)). exact Hin.
+Qed.
+
+Lemma len_its_del : forall w i, length (its (del_world w i)) = length (its w).
+Proof. intros. unfold del_world. cbn [its seti_w]. rewrite length_seti, its_unregister. reflexivity. Qed.
+
+Lemma len_tabs_del : forall w i, length (tabs (del_world w i)) = length (tabs w).
+Proof. intros. unfold del_world. cbn [tabs seti_w]. apply tabs_unregister_len. Qed.
+
+Lemma gett_unreg_del : forall w i t, gett (unregister w i) t = gett (del_world w i) t.
+Proof. reflexivity. Qed.
+
+Lemma live_del : forall w i t c, WF w -> t < length (tabs w) -> (live (gett (del_world w i) t) c <-> live (gett w t) c).
+Proof.
+  intros w i t c W Ht. rewrite (gett_del w i t W Ht).
+  destruct (geti (its w) i) as [it|]; [|tauto]. destruct (inoreg it); [tauto|].
+  destruct (iown it); [|tauto]. destruct (Nat.eqb t n); [|tauto]. unfold live. rewrite getn_with_ilist. tauto.
+Qed.
+
+Lemma WF_cookie : forall w i it c, WF w -> geti (its w) i = Some it -> icookie it = Some c ->
+  inoreg it = false /\ exists t, iown it = Some t /\ t < length (tabs w) /\ live (gett w t) c.
+Proof.
+  intros w i it c [WT WI] Hg Hc. pose proof (WI i it Hg) as P. destruct (iown it) as [t|] eqn:O; [|congruence].
+  destruct (tl_own _ _ _ (WT t P) i it Hg O) as [_ B]. destruct (B c Hc) as [R L]. split; [exact R|].
+  exists t. auto.
+Qed.
+
+Lemma WF_add_detached : forall w i bw nr scr, WF w -> geti (its w) i = None -> i < length (its w) ->
+  WF (seti_w w (seti (its w) i (Some (mkIter None None bw nr scr)))).
+Proof.
+  intros w i bw nr scr [WT WI] Hn Hi. constructor.
+  - intros u Hu. cbn [tabs seti_w] in Hu. rewrite gett_seti_w. cbn [its seti_w].
+    destruct (WT u Hu) as [HT Hnd Hreg Hown]. constructor; try assumption.
+    + intros j Hj. destruct (Hreg j Hj) as (it & Hg & O & R). exists it. split; [|auto].
+      rewrite geti_seti_other; [exact Hg|]. intro; subst. congruence.
+    + intros j it Hg O. destruct (Nat.eq_dec j i) as [->|Hji].
+      * rewrite geti_seti_same in Hg by exact Hi. inversion Hg; subst it. discriminate.
+      * rewrite geti_seti_other in Hg by congruence. apply (Hown j it Hg O).
+  - intros j it Hg. cbn [its seti_w] in Hg. cbn [tabs seti_w]. destruct (Nat.eq_dec j i) as [->|Hji].
+    + rewrite geti_seti_same in Hg by exact Hi. inversion Hg; subst it. reflexivity.
+    + rewrite geti_seti_other in Hg by congruence. apply (WI j it Hg).
 Qed.
